@@ -11,6 +11,7 @@ extern "C" size_t __sanitizer_get_current_allocated_bytes(void);   // exported b
 #include "wrapObj.h"
 #include "wrapOther.h"
 extern "C" void CAP_ShroudCopyStringAndFree(CAP_SHROUD_array *data, char *c_var, size_t c_var_len);
+extern "C" void CAP_ShroudCopyArray(CAP_SHROUD_array *data, void *c_var, size_t c_var_size);
 struct H { int type; CAP_SHROUD_capsule_data cap; CAP_SHROUD_array arr; };   // type 1 Obj, 2 Other, 3 ints, 4 string
 static std::vector<H> hs;
 static CAP_SHROUD_capsule_data *capsule(H &h) { return (h.type == 1 || h.type == 2) ? &h.cap : &h.arr.cxx; }
@@ -82,6 +83,14 @@ int main() {
                          before = __sanitizer_get_current_allocated_bytes(); }
       else if (a == 3) { CAP_upcase_bufferify(buf, ntrim, nlen); val = buf[0]; }
       else if (a == 4) { CAP_fill_name_bufferify(buf, nlen); val = buf[nlen - 1]; }
+      else if (a == 6) { // a std::vector<int> output of b elements copied into the caller's array of c elements, then released
+                         int want = c < 0 ? 0 : c; int *dst = (int *)std::malloc(sizeof(int) * (want > 0 ? want : 1));
+                         before = __sanitizer_get_current_allocated_bytes();
+                         CAP_SHROUD_array arr; std::memset(&arr, 0, sizeof arr); g_room = ntrim;
+                         CAP_iota_bufferify(&arr); CAP_ShroudCopyArray(&arr, dst, want);
+                         val = (want > 0 && ntrim > 0) ? dst[0] : 0; size_t mid = __sanitizer_get_current_allocated_bytes();
+                         std::free(dst); if (mid != before) { std::printf("op %d leaktemp\n", opno); std::fflush(stdout); return 6; }
+                         before = __sanitizer_get_current_allocated_bytes(); }
       else { val = CAP_sumvec_bufferify(iv, ntrim); }
       size_t after = __sanitizer_get_current_allocated_bytes();
       std::free(buf); std::free(iv);
